@@ -1344,6 +1344,8 @@ func propC01(r *Run) {
 		r.op("gb.read " + encRegistry(registry{}) + " " + encStr(t))
 		r.count("damaged/fixed-list")
 	}
+	// leaked location-parser frames followed by a field that fails late (F34)
+	leakCases(r)
 
 	r.notes = append(r.notes,
 		fmt.Sprintf("generated records %d (+%d with known-finding shapes), edit pipelines %d, streams %d, damaged texts %d, tables %d; sequence lengths 0..200 exhaustively (+CONTIG every 10, CONTIG-only); dates: %d years x 12 months (all days for 1900/2000/2023, all for every listed year in thorough)", nGen, nFind, nPipe, nStream, nDamage, nQual, len(years)),
